@@ -39,8 +39,15 @@ void BiPropNode::biPropDependsOnOneNode(BiPropNode& node) {
     set_insert(*biPropSet_, &node);
     node.biPropSet_ = biPropSet_;
   } else if (node.biPropSet_ != nullptr && biPropSet_ != nullptr) {
-    set_union(*biPropSet_, *node.biPropSet_);
-    node.biPropSet_ = biPropSet_;
+    if (node.biPropSet_ != biPropSet_) {
+      // Merge the other set into ours and re-point every member of the absorbed set (not only the
+      // connecting node), otherwise those members keep propagating through the stale list.
+      std::shared_ptr<std::vector<const BiPropNode*>> absorbed = node.biPropSet_;
+      set_union(*biPropSet_, *absorbed);
+      for (const BiPropNode* member : *absorbed) {
+        const_cast<BiPropNode*>(member)->biPropSet_ = biPropSet_;
+      }
+    }
   } else if (biPropSet_ == nullptr) {
     biPropSet_ = node.biPropSet_;
     set_insert(*biPropSet_, this);
